@@ -9,6 +9,7 @@ from ..model import (Expr, In, Ref, Program, Step, OneOf, Opt, OrDisabled, RawYA
 SHAPES = [
     "x", '""', "null", "~", "[]", "{}", "[1, 2]", "{k: v}", "{a: {b: [c, {d: e}]}}", "12", "-1", "1.5e3", "true", "0x1F", ".inf", "'quoted'",
     "&anc x", "*nope", "{<<: {k: v}}", "{[1, 2]: x}", "{? {a: b} : c}", "{1: 2}", "{null: x}", "[[[[[[]]]]]]",
+    "{? : v}", "{? : {a: b}, k: v}", "{: v}", "{~: v, k: w}", "[{? : v}]", '{"": v}',
     '!expr "$"', '!expr "$.input"', '!expr "$.steps"', '!expr "$.steps.a"', '!expr "$.steps.a.outputs"', '!expr "$[\"input\"]"', '!expr "$.nosuch"', '!soft-optional "$"', '!ordisabled "$"',
     "!expr x", "!expr [1]", "!expr {a: b}", '!expr ""', '!expr "0!"', '!expr "$."', '!expr "$.steps"', '!expr "$.input.tag["', '!expr "((("', '!expr "1 +"', '!expr "f(,)"',
     '!expr "$.input.tag.x.y"', '!expr "$.steps.a"', '!expr "$[0]"', '!expr "\\"unterminated"', '!expr "$.input.tag == "', '!expr "!"', '!expr "-"', '!expr "1/0"', '!expr "$..a"',
@@ -181,6 +182,9 @@ def subworkflow_cases(check):
     # main workflow in the file cache, with a file of that name present: the name must not resolve to the main workflow
     add({"workflow.yaml": main % "workflow", "workflow": LEAF}, "sub-workflow file named like the cache key of the main workflow", "keycollision:main", "ok")
     add({"workflow.yaml": main % "a.yaml", "a.yaml": SUB_TMPL % "workflow", "workflow": LEAF}, "nested sub-workflow file named like the cache key of the main workflow", "keycollision:nested", "ok")
+    for k, text in enumerate(["?", "? \n: v\n", "? \n", ": v\n", "version: v0.2.0\n? \n: v\n", "steps:\n  ? \n  : {kind: foreach}\n"]):
+        add({"workflow.yaml": text}, "main file with an empty key (%d)" % k, "emptykey:main", "error")
+        add({"workflow.yaml": main % "a.yaml", "a.yaml": text}, "sub-workflow file with an empty key (%d)" % k, "emptykey:sub", "error")
     add({"workflow.yaml": ""}, "empty main file", "empty-main", "error")
     add({"other.yaml": LEAF}, "no workflow.yaml", "no-main", "error")
     return out
@@ -217,7 +221,7 @@ def byte_mutations(check, n):
     return out
 
 
-INPUT_DOCS = ["{}", "", "null", "[]", "x", "{tag: x}", "{tag: [1]}", "{tag: {a: b}}", "{tag: x, n: notanint}", "{tag: x, items: x}", "{tag: x, items: [x]}", "{tag: x, unknown: 1}",
+INPUT_DOCS = ["{? : v}", "?", "? \n: v\n", ": v", "{tag: x, ? : v}", "{tag: x, ~: v}", "tag: x\n? \n: v\n", "{}", "", "null", "[]", "x", "{tag: x}", "{tag: [1]}", "{tag: {a: b}}", "{tag: x, n: notanint}", "{tag: x, items: x}", "{tag: x, items: [x]}", "{tag: x, unknown: 1}",
               "{[1]: x}", "{? {a: b} : c}", "&a {tag: *a}", "{tag: !expr \"$.x\"}", "{tag: !!binary aGk=}", "tag: x\n  bad: indent", "{tag: x, n: 99999999999999999999}",
               "{tag: x, n: 1.5}", "{tag: x, flag: maybe}", "\t", "{tag: \"\\x00\"}", "- a\n- b", "{<<: {tag: x}}", "*undefined"]
 
